@@ -11,14 +11,15 @@ TECHNIQUE = ("runtime monitoring on the real in-process server stack under a vir
 LEVEL_TEXT = ("HITL programs (1-3 concurrent waits) x idle_timeout grid x send schedules (none before release, one shortly before release, all after "
               "release) x both stores; exact virtual instants make 'released after idle_timeout, not before' a comparison of numbers; the reloaded run must "
               "finish with the uninterrupted result.")
-LEVEL_NOTE = ("In-process stack only (IdleReleaseDecorator + PersistenceDecorator + ServerRuntimeDecorator over BasicRuntime, SQLite and memory stores). "
-              "The DBOS stack cannot run here: the dbos package is absent and unfetchable (its idle-release decorator needs the DBOS runtime's "
-              "workflow handles); C26 exercises the DBOS lifecycle lock on its own.")
+LEVEL_NOTE = ("Both server stacks: in-process (IdleReleaseDecorator + PersistenceDecorator + ServerRuntimeDecorator over BasicRuntime, SQLite and memory stores) and "
+              "the DBOS chain with the engine substituted (real DBOSIdleReleaseDecorator / EventInterceptorDecorator / TickPersistenceDecorator / "
+              "SqliteRunLifecycleLock over a BasicRuntime; the DBOS name used by idle_release is bound to a 2-method stand-in), single replica. "
+              "The real DBOS engine (recovery, message durability, cross-replica) cannot run here: the dbos package is absent.")
 DESIGN_REF = "§5 C36"
 RULE = "case = (program, idle_timeout, send schedule, store); distinct = hash of the scenario; non-trivial = a release happened and a later send reloaded the run"
 REQUIRED_REACH = ["scenario", "released_checked", "not_released_early_checked", "send_before_release_kept_in_memory", "reload_after_release", "finished_after_reload",
                   "store_sqlite", "store_memory", "slow_store", "stack_inproc", "stack_dbos_sub"]
-ASSUMPTIONS = ["DBOS half of the property not decided (see level_note)"]
+ASSUMPTIONS = ["DBOS half decided on the substitute-engine stack only (see level_note)"]
 
 
 def plan(tier, seed):
